@@ -97,7 +97,7 @@ func (s *Server) VerifTableSnapshot() (ret VerifTable) {
 	return
 }
 
-// Simulates the passage of d for every routing table entry by moving its timestamps into the past.
+// Simulates the passage of d for the routing table by moving the time stamps of its entries and buckets into the past.
 func (s *Server) VerifAgeNodes(d time.Duration) {
 	s.mu.Lock()
 	defer s.mu.Unlock()
@@ -110,6 +110,12 @@ func (s *Server) VerifAgeNodes(d time.Duration) {
 		}
 		return true
 	})
+	// the buckets' own "last changed" stamps age with everything else
+	for i := range s.table.buckets {
+		if b := &s.table.buckets[i]; !b.lastChanged.IsZero() {
+			b.lastChanged = b.lastChanged.Add(-d)
+		}
+	}
 }
 
 // Sets the time source of the token server (the field exists but is unexported).
